@@ -1,18 +1,21 @@
 #!/bin/bash
 # usage: confirm_mutant.sh <scratch worktree> <dir with patch.diff demo.rs> <tag>
 # Confirms in the scratch worktree: demo passes without the patch; with the patch the crate builds,
-# the whole existing suite passes, and the demo fails.  Leaves src/ unmodified.
+# the whole existing suite (no demo present) passes, and the demo fails.  Leaves src/ unmodified.
 set -u
 WT="$1"; D="$2"; TAG="$3"
 cd "$WT" || exit 2
-git checkout -q -- src
-cp "$D/demo.rs" "tests/zz_demo_$TAG.rs"
+git checkout -q -- src; git clean -fdq tests src
 export CARGO_NET_OFFLINE=true
+cp "$D/demo.rs" "tests/zz_demo_$TAG.rs"
 base=$(cargo test --offline --features compiler --test "zz_demo_$TAG" 2>&1 | grep -E "^test result" | tail -1)
+rm -f "tests/zz_demo_$TAG.rs"
 git apply "$D/patch.diff" || { echo "$TAG: patch does not apply"; exit 2; }
+build=$(cargo build --offline --features compiler 2>&1 | grep -cE "^error")
 suite=$(cargo test --workspace --no-fail-fast --offline 2>&1 | grep -E "^test result" | awk '{p+=$4; f+=$6} END {print "passed=" p " failed=" f}')
-demo=$(cargo test --offline --features compiler --test "zz_demo_$TAG" 2>&1 | grep -E "^test result|error(\[|:)" | tail -1)
+cp "$D/demo.rs" "tests/zz_demo_$TAG.rs"
+demo=$(cargo test --offline --features compiler --test "zz_demo_$TAG" 2>&1 | grep -E "^test result|error(\[|:)" | tail -2 | tr '\n' ' ')
 git checkout -q -- src; rm -f "tests/zz_demo_$TAG.rs"
 echo "$TAG: demo-without-patch: $base"
-echo "$TAG: suite-with-patch: $suite (other tests)"
+echo "$TAG: build-errors-with-patch: $build; suite-with-patch: $suite"
 echo "$TAG: demo-with-patch: $demo"
